@@ -16,7 +16,12 @@ Extra == << Con(MkBs(Bytes(254))), Con(MkBs(Bytes(255))), Con(MkBs(Bytes(256))),
             Constr(127, <<>>), Constr(128, <<>>), Constr(16384, <<Con(MkInt(64))>>), Con(MkInt(63)), Con(MkInt(64)), Con(MkInt(0 - 64)), Con(MkInt(0 - 65)),
             Con(MkInt(8191)), Con(MkInt(8192)), Con(MkInt(1048575)), Con(MkInt(1048576)) >>
 
-AllCases == Cases \o Extra
+\* programs whose WHOLE flat encoding is 23 / 24 / 255 / 256 bytes long: the CBOR header of the wrapping changes form there
+Boundary == [i \in 1..10 |-> Con(MkBs(Bytes(<<14, 15, 16, 17, 245, 246, 247, 248, 249, 250>>[i])))]
+FlatLen(t) == Len(EncProgram(1, 1, 0, t)) \div 8
+ASSUME {23, 24, 255, 256} \subseteq {FlatLen(Boundary[i]) : i \in 1..Len(Boundary)}
+
+AllCases == Cases \o Extra \o Boundary
 
 VARIABLES m
 FInit == m \in 1..Len(AllCases) /\ n = 1        \* n is MC_Text's variable, unused here
